@@ -35,6 +35,7 @@ DeclsM == { Dc("Parameter", "U", "U", "U", "U", "U", "U"), Dc("Number", "U", "U"
 \* instantiate=True ancestors whose default does not fit the redeclared type
 DeclsI == { Dc("Parameter", "s", "U", "U", "U", "U", "T"), Dc("Parameter", "5", "U", "U", "U", "U", "T"), Dc("Number", "1.5", "U", "U", "U", "U", "T"),
             Dc("String", "s", "U", "U", "U", "U", "T"),
+            Dc("Parameter", "t3", "U", "U", "U", "U", "U"), Dc("Tuple", "U", "U", "U", "U", "U", "U"), Dc("Tuple", "t3", "U", "U", "U", "U", "U"),
             Dc("Number", "U", "U", "U", "U", "U", "U"), Dc("Integer", "U", "U", "U", "U", "U", "U"), Dc("Number", "U", "b02", "U", "U", "U", "U"),
             Dc("Parameter", "U", "U", "U", "U", "U", "U"), Dc("String", "U", "U", "U", "U", "U", "U"), Dc("Integer", "U", "U", "d1", "U", "U", "U") }
 ShapesAll == {"chain", "skip", "diamondBC", "diamondCB"}
